@@ -87,6 +87,10 @@ func genStep(t *rapid.T, nclients int, allowRestart bool) Step {
 		s.Kind = "request"
 	}
 	s.Host = genHost(t)
+	if rapid.IntRange(0, 5).Draw(t, "prelease") == 0 {
+		// another plugin, listed earlier, has already put a lease time into the response
+		s.PreLease = rapid.SampledFrom([]uint32{1, 30, 3600, 7200, 86400}).Draw(t, "prelease-s")
+	}
 	return s
 }
 
